@@ -47,6 +47,23 @@ def handle (op : String) (ins outs : List String) : List Out :=
       [mk "fit_curve.none_iff" (isSome == 1) "model Some, implementation None",
        mk "fit_curve.curve_count" (cs.length == k) s!"model {cs.length} curves, implementation {k}",
        mk "fit_curve.control_points" (allBiteq flat impl) s!"model {showL (flat.take 16)} ... impl {showL (impl.take 16)} ..."]
+  | "fitloop" =>
+    -- ins / outs as "fit"; `fit_curve_loop` (generated) at Float, bit for bit
+    let me := fl (ins.getD 0 "0")
+    let n := parseNat (ins.getD 1 "0")
+    let coords := ((ins.drop 2).take (2 * n)).map fl
+    let model := Model.FitKernel.fitCurveLoopGen (K := Float) (pts coords) me
+    let isSome := parseNat (outs.getD 0 "0")
+    let k := parseNat (outs.getD 1 "0")
+    let impl := ((outs.drop 2).take (8 * k)).map fl
+    if isSome == 2 then [mk "fit_curve_loop.panic" false s!"the implementation panicked on {n} points with max_error {me}"] else
+    match model with
+    | none => [mk "fit_curve_loop.none_iff" (isSome == 0) s!"model None, implementation Some of {k} curves"]
+    | some cs =>
+      let flat := cs.flatMap cubl
+      [mk "fit_curve_loop.none_iff" (isSome == 1) "model Some, implementation None",
+       mk "fit_curve_loop.curve_count" (cs.length == k) s!"model {cs.length} curves, implementation {k}",
+       mk "fit_curve_loop.control_points" (allBiteq flat impl) s!"model {showL (flat.take 16)} ... impl {showL (impl.take 16)} ..."]
   | "cubic" =>
     -- ins: max_error st(2) et(2) #n points; outs: #k curves.  `fit_curve_cubic` with the caller's tangents, bit for bit.
     let hd := (ins.take 5).map fl
